@@ -113,6 +113,19 @@ pub fn judge_promoted(
     Err(first_diff)
 }
 
+/// Diagnostic: the difference under every alternative `judge_promoted` tries (for the witness).
+pub fn all_diffs(base: &UserMap, regs: &RegMap, observed: &UserMap) -> Value {
+    let mut out = Vec::new();
+    for lost in [false, true] {
+        for f03 in [false, true] {
+            let q = Quirks { hash_matches_parent_in_queries: f03 };
+            let (e, a, _, _, n_lost) = expected_after_promotion(base, regs, &q, lost);
+            out.push(json!({"wills_lost": lost, "f03": f03, "n_lost": n_lost, "diff": matches_expected(&e, &a, observed)}));
+        }
+    }
+    Value::Array(out)
+}
+
 pub fn matches_expected(expected: &UserMap, alternatives: &BTreeMap<String, Vec<Value>>, observed: &UserMap) -> Option<Value> {
     let mut e = expected.clone();
     for (k, alts) in alternatives {
@@ -395,6 +408,7 @@ fn run_scenario(ctx: &Ctx, dir: &std::path::Path, p: &Plan, steps: &[Step], rng:
                 "follower_use_persistence": f.use_persistence,
                 "promoted_use_persistence": promoted_use_persistence,
                 "expected_vs_promoted": strict,
+                "diff_under_each_alternative": all_diffs(&l_user, &l_regs, &observed),
                 "leader_registrations_at_drop": l_regs,
                 "follower_registrations_at_drop": f.regs,
                 "follower_equalled_leader_only_with_known_findings": f.equal_only_with_known,
